@@ -500,6 +500,7 @@ func Gen(w *bufio.Writer, seed uint64, tier string) {
 	fmt.Fprintf(w, "C17 read %s\n", hx.Hex((&archive{}).build()))
 	fmt.Fprintf(w, "C17 read %s\n", hx.Hex((&archive{z64: 1}).build()))
 	fmt.Fprintf(w, "C17 read %s\n", hx.Hex((&archive{comment: []byte("hi")}).build()))
+	genTargeted(w, hx.NewRng(seed^0x4c17), tier) // srcdir.go
 	// (b) random structured archives: plain (what relic's writers and most tools emit) and exotic
 	for i := 0; i < n; i++ {
 		a := genArchive(r, i%3 == 0)
@@ -507,6 +508,9 @@ func Gen(w *bufio.Writer, seed uint64, tier string) {
 		fmt.Fprintf(w, "C17 read %s\n", hx.Hex(z))
 		if i%2 == 0 {
 			fmt.Fprintln(w, rewriteOp(r, z, len(a.members)))
+		}
+		if i%8 == 3 && len(a.members) > 1 {
+			fmt.Fprintf(w, "C17 srcdir %s %s %d\n", hx.Hex(z), delMask(len(a.members), int(seed+uint64(i))%(len(a.members)-1)), b2i(i%16 == 3))
 		}
 		// (c) malformed stream derived from it
 		if i%4 == 1 && len(z) > 0 {
@@ -767,8 +771,8 @@ func goZip(z []byte) string {
 					return io.NopCloser(bytes.NewReader(data)), nil
 				}
 			}
-			rows[i] = fmt.Sprintf("%s %d %d %d %d %d %d %d %s", hx.Hex([]byte(f.Name)), f.Method, f.Flags, f.CRC32, f.CompressedSize64,
-				f.UncompressedSize64, hoff, doff, shaOf(open))
+			rows[i] = fmt.Sprintf("%s %d %d %d %d %d %d %d %s %s %s", hx.Hex([]byte(f.Name)), f.Method, f.Flags, f.CRC32, f.CompressedSize64,
+				f.UncompressedSize64, hoff, doff, shaOf(open), hx.Hex(f.Extra), hx.Hex([]byte(f.Comment)))
 		}
 		return fmt.Sprintf("ok comment=%s [ %s ]", hx.Hex([]byte(zr.Comment)), strings.Join(rows, " ; "))
 	})
@@ -806,7 +810,7 @@ func doRewrite(f []string) string {
 			if i < len(mask) && mask[i] == '1' {
 				continue
 			}
-			exp = append(exp, hx.Hex([]byte(zf.Name))+":"+shaOf(zf.Open))
+			exp = append(exp, hx.Hex([]byte(zf.Name))+":"+shaOf(zf.Open)+":"+hx.Hex(zf.Extra)+":"+hx.Hex([]byte(zf.Comment)))
 		}
 	} else {
 		exp = append(exp, "unknown")
@@ -849,7 +853,7 @@ func doRewrite(f []string) string {
 		if _, err := nd.NewFile(string(name), extra, contents, &body, fixedTime, defl, useDesc); err != nil {
 			return "err newfile-" + classify(err)
 		}
-		exp = append(exp, hx.Hex(name)+":"+hex.EncodeToString(sha256sum(contents))[:16])
+		exp = append(exp, hx.Hex(name)+":"+hex.EncodeToString(sha256sum(contents))[:16]+":"+hx.Hex(extra)+":-")
 	}
 	if err := nd.WriteDirectory(&body, &body, force); err != nil {
 		return "err wd-" + classify(err)
@@ -1042,6 +1046,8 @@ func Impl() {
 			return guard(func() string { return doMany(f) })
 		case "wdx":
 			return guard(func() string { return doWdx(f) })
+		case "srcdir":
+			return guard(func() string { return doSrcdir(f) })
 		}
 		return "bad-op"
 	})
